@@ -339,6 +339,16 @@ def oracles(rec):
                 for st, sp in leaf_data.items():
                     if cur[3].get(st, '-') != prev[3].get(sp['field'], '-'):
                         fail('C10', f'into_dynamic changed data of {st}')
+        if op == 'default' and o['res'] == 'unit':
+            # Default::default() is new(Default::default()): initial state, its data defaulted, nothing else
+            if cur[0] != 'dyn' or cur[1] != info.get('initial'):
+                fail('C10', f'Default::default() yields a machine in {cur[1]}; new() starts in {info.get("initial")}')
+            else:
+                for st in leaf_data:
+                    want = '0' if st == cur[1] else '-'
+                    if cur[3].get(st, '-') != want:
+                        fail('C10', f'Default::default() differs from new(Default::default()): data of {st} reads '
+                                    f'{cur[3].get(st, "-")}, new() gives {want}')
         if op == 'state' and prev[0] == 'dyn' and prev[1] in states:
             if o['res'] != 'str:' + prev[1]:
                 fail('C01', f'current_state returned {o["res"]} in state {prev[1]}')
@@ -432,8 +442,11 @@ def rename_def(d, neutral=False):
         m.update({n: f'nev{i}' for i, n in enumerate(events)})
     else:
         m.update(_perm(leaves)); m.update(_perm(sups)); m.update(_perm(events))
-    for grp in hooks.values():
-        m.update(_perm(grp))
+    if neutral:
+        m.update({n: f'nh{i}' for i, n in enumerate(sorted(T.hooks_used(d)))})
+    else:
+        for grp in hooks.values():
+            m.update(_perm(grp))
     def r(x):
         return m.get(x, x)
     def rb(items):
@@ -452,8 +465,10 @@ def rename_def(d, neutral=False):
     for it in d:
         if it[0] == 'initial':
             td.append(('initial', r(it[1])))
+        elif it[0] == 'name' and neutral:
+            td.append(('name', 'Nmachine'))
         elif it[0] == 'states':
-            td.append(('states', rb(it[1])))
+            td.append(('states', rb(it[1])) + tuple(it[2:]))
         elif it[0] == 'events':
             blocks = []
             for (en, items) in it[1]:
@@ -603,9 +618,17 @@ def run(tier, seed, work, repo, suspects=None):
         # a crate that does not build: isolate the machines that do not compile (each is a
         # well-formed definition the macro should have handled) and keep going with the others
         units = []
+        groups = {}
         for x in ds:
-            ok1, err1 = build_unit(f'{ci}_{x["mod"]}', [x], feature)
-            units.append((f'{ci}_{x["mod"]}', [x], None if ok1 else err1))
+            groups.setdefault(x.get('twin_of') or x['id'], []).append(x)
+        for gid, g in groups.items():
+            ok1, err1 = build_unit(f'{ci}_{g[0]["mod"]}', g, feature)
+            if not ok1 and len(g) > 1:
+                # a twin that does not build must not hide its base
+                base = [x for x in g if not x.get('twin_of')]
+                ok1, err1 = build_unit(f'{ci}_{g[0]["mod"]}', base, feature)
+                g = base
+            units.append((f'{ci}_{g[0]["mod"]}', g, None if ok1 else err1))
         return units
     with ThreadPoolExecutor(min(8, len(crates))) as ex:
         built = [u for us in ex.map(build, range(len(crates))) for u in us]
